@@ -56,6 +56,11 @@ CHECKS = {
     text="Kernel-checked: every instruction-emission site with a literal opcode (inventory regenerated from the sources) names an existing instruction with the right operand count; every operator-table opcode exists except 'neg' (refuted, known finding); integer literals read back exactly for EVERY integer; a statically well-formed program never stops with 'unknown instruction' or 'wrong operand count' for any oracle and fuel; the version note changes at most one line and a changed line stays below 89 characters. Every line of every compile (repository, corpus, generated programs x option vectors) is checked against the signature table, forbidden spellings and the values exported by the hook (exact for integers up to 2^53, 16 significant digits otherwise, exact rationals); float formatting is read back over all decades.",
     note="Trusted: Sig.v (hand-written IC10 signatures) and the literal grammar in ic10.py; hook values; CPython's %.16g taken as correctly rounded (checked by read-back, not modelled). Three open known findings pinned by stored references (neg opcode, empty operand for an unassigned name, unvalidated logic-type name).",
     design="4 C09"),
+ "C05": dict(
+    category="proof", technique="Coq theorems about label resolution on machine programs (target = next instruction, label-free result, static label check) + per-compile glue equality evaluated in Coq + identifier adversary + execution of both label modes",
+    text="Kernel-checked for every program and label: the number that replaces a label is the index, in the label-free program, of the (resolved) instruction following the label; the resolved program has no label lines or label operands; the static check implies every referenced label is defined exactly once and resolves. For every compile pair (labels kept / removed, 3-5 option variants) the equality resolve(parse(labelled)) = parse(label-free) is evaluated in Coq on the real outputs, both outputs pass a static jump-target check and are executed against each other. Function names come from adversarial families (prefixes of one another, '<name>end', generated-label and opcode/register look-alikes, also used as device-name strings). A semantic simulation theorem (labelled vs resolved machine runs) is not proved: return addresses differ between the two runs, see DESIGN.",
+    note="Trusted: Coq kernel; Machine.v label semantics; ic10.py reader. Two open known findings (label-name clashes: '<name>end' vs function <name>end; functions named like generated labels).",
+    design="4 C05"),
 }
 
 NOT_YET = {}
